@@ -42,7 +42,9 @@ LEVEL_TEXT = (
     "header only when the previous chunk and its terminator are consumed (a size kept in a local until it is stored is followed when it is stored on every path and nothing in between touches the state), consumes the terminator exactly when the "
     "residual length reaches zero, raises OSError unless it is a line terminator (decided by following the CFG from the read for sample lines: CRLF and LF continue, "
     "every other sample - the empty line included - ends in raise OSError), sets the end flag only on a freshly "
-    "read zero size (`= True` under a guard, or `= <test of the residual length>`), and on every path of one loop iteration the residual length decreases by exactly the number of "
+    "read zero size (`= True` under a guard, or `= <test of the residual length>`), the end flag is a latch: once it is set - in this call or, entered with the flag set, in a later one - "
+    "no chunk header and no chunk data is read any more, only the terminator of the zero chunk (decided when every read of the flag in readinto is a condition that can be evaluated for both of its "
+    "values; a flag copied to a local or handed on leaves this clause undecided and nothing is claimed; `if <flag>: return 0` guard clauses in front of `count = 0` are read as `count = 0` / `if <flag>: return count`), and on every path of one loop iteration the residual length decreases by exactly the number of "
     "bytes requested from the stream, stored at the fill position and added to the returned count (a local or an arithmetic expression over locals such as `size - free`), never asking for more "
     "than the residual length or the free space (linear arithmetic over the path: loop-invariant locals bound before the loop such as `size = len(buf)` / a memoryview of the buffer, min / max also spelled as conditional "
     "expressions, tuple assignments, walrus bindings, the loop guard and every comparison on the path as facts); every buffer store must be length-exact (private methods of the "
@@ -53,7 +55,8 @@ LEVEL_TEXT = (
     "evaluating every path of one loop iteration on sample header names - generic, underscore, Content-Type/-Length "
     "spellings and every name derived from a string constant of the loop or of a pure helper it calls - with the value and the earlier environ "
     "content symbolic; pure helper functions / handler methods made of assignments, `if` and `return` are evaluated on their arguments; a filter or a mapping in a generator / list comprehension over self.headers.items() is moved into the loop; "
-    "a condition that does not depend on the header is followed on both edges, one on the header's own name / value that cannot be decided is an analysis error); the loop may fill a local dict instead, "
+    "a condition that does not depend on the header is followed on both edges, one on the header's own name / value that cannot be decided is an analysis error; inside the loop `try: S` / `except KeyError: H` around a single "
+    "call-free statement with one `d[k]` read is taken as `if k in d: S` / `else: H`; fixed entries may also be added by `environ |= {...}` / `environ.update({...})` / `environ['K'] = v` as unconditional statements between the literal and the loop); the loop may fill a local dict instead, "
     "provided that dict starts empty, is changed by the loop only and is merged into the environ once after the loop on every path (update / `|=` / `{**environ, **d}` / `|` / dict(environ, **d) / `**d` in the literal) with the received header winning "
     "or no earlier environ key in the header key space; looks Transfer-Encoding up after the header "
     "loop (after the merge) and de-chunks for 'chunked' in any letter case but not for '' / 'gzip' / 'identity' / no header (lookups by get / subscript / `in`, through hoisted locals and `try: ... except KeyError` defaults), unquotes the "
@@ -66,7 +69,15 @@ LEVEL_TEXT = (
     "unfoldable conditional are taken), `rfile` is rebound only to a buffered reader (makefile / open with non-zero "
     "buffering, io.BufferedReader; never socket.SocketIO, `.raw`, `.detach()`), a setup() override runs the inherited "
     "setup() on every path, and the connection stays blocking (`timeout` not 0, no setblocking(False) / settimeout(0) in "
-    "the handler).  It decides these clauses on all paths of "
+    "the handler); (R19.6) make_environ is followed statement by statement from its entry to every return once per sample request target (scheme / authority empty and non-empty), with the "
+    "locals that can be evaluated (constants, the components of urlsplit(self.path) however bound, boolean / conditional / f-string / comparison expressions, all() / any() of a display, side-effect-free predicate "
+    "helpers, module-level constants) and, for every local dict, what it holds under HTTP_HOST - nothing, an evaluated value, whatever the header loop left (the client's Host header, joined, or none), or something "
+    "not followed - through subscript stores, update / setdefault / pop / del / clear / `|=` / `|` / dict(...) / `{**a, ...}` / copy, membership tests and get / subscript reads of that entry (a value that reads the entry "
+    "the header loop left is evaluated for a client that sent a Host header and for one that sent none), statement helpers (handler methods and functions of the module, guard-clause returns turned into if / else) expanded one "
+    "level: for an absolute-form target (scheme and authority present) HTTP_HOST on return is the authority on every path - setdefault after the header loop, `if 'HTTP_HOST' not in environ`, `get('HTTP_HOST') or netloc`, a store "
+    "placed before the header loop or before the merge of the header dict, a store skipped on some path are violations -, and for every other target no value evaluated from the URL is returned under HTTP_HOST; an entry "
+    "written by something that is not followed, or a verdict that rests on a URL condition that cannot be evaluated, is an analysis error (a component other than scheme / netloc / path / query / fragment, e.g. "
+    "`.hostname`, is not evaluated: such a store is undecided, not judged).  It decides these clauses on all paths of "
     "the named functions; a shape outside what is described here ends in an analysis error, not in a verdict; handler classes supplied by the caller of make_server / run_simple, socket options set outside "
     "the handler classes, other socket-level behaviour, http.server's own parsing and byte equality of whole exchanges are not decided."
 )
@@ -283,6 +294,7 @@ def run(ctx: Ctx) -> None:
         "R19.3": "de-chunker: header parse failures and negative sizes raise OSError (base 16); header / terminator / end-flag protocol holds on all paths (typestate); per loop iteration residual decrement == bytes requested == bytes stored at the fill position == count increment, within residual and buffer bounds; buffer stores are length-exact",
         "R19.4": "make_environ: wsgi.input_terminated set under exactly the guard that wraps wsgi.input in DechunkedInput; '_' header names skipped; CONTENT_TYPE/LENGTH unprefixed, others HTTP_-prefixed and comma-joined in order; path unquoted then re-encoded, query only re-encoded; '//' first segment re-attached",
         "R19.5": "premise of the exactness argument: the request stream is the io.BufferedReader that StreamRequestHandler.setup creates over a blocking socket - `rbufsize` is bound to 0 nowhere (class bodies of the handler hierarchy, attribute stores, setattr, class namespaces), `rfile` is rebound only to a buffered reader, setup() overrides run the inherited setup(), `timeout` is not 0 and the handler never makes the connection non-blocking",
+        "R19.6": "make_environ: for an absolute-form request target (scheme and authority present) HTTP_HOST holds the authority of the target on return, whatever Host header the client sent (the last effective write on every path is the store of the netloc); for every other target no URL component is written over the client's Host header",
     }.items():
         ctx.rule(rid, text)
 
@@ -295,7 +307,7 @@ def run(ctx: Ctx) -> None:
     ctx.saw(rw, me)
     rw = _inline_own_helpers(ctx, rw, handler)
     rw = _normalise_response_fn(rw)
-    me = _inline_own_helpers(ctx, me, handler)
+    me = _inline_own_helpers(ctx, me, handler, with_functions=True)
     me_node, me_split = H.split_parallel_assigns(me.node)  # `scheme, netloc = url.scheme, url.netloc` is two bindings
     if me_split:
         me = FuncInfo(me.module, me_node, me.qualname, me.cls)
@@ -313,7 +325,7 @@ HANDLER_API = {
 }
 
 
-def _inline_own_helpers(ctx: Ctx, fi: FuncInfo, handler: ClassInfo) -> FuncInfo:
+def _inline_own_helpers(ctx: Ctx, fi: FuncInfo, handler: ClassInfo, with_functions: bool = False) -> FuncInfo:
     """logic moved into a method of the handler: `self._h(a, b)` as a statement (the method has no `return <value>`) is
     replaced by the method's body, one level, also inside nested functions (see _c19_helpers.inline_methods).  The
     function is returned unchanged when it calls no such method."""
@@ -322,12 +334,17 @@ def _inline_own_helpers(ctx: Ctx, fi: FuncInfo, handler: ClassInfo) -> FuncInfo:
 
     own = {nm: m.node for nm, m in handler.methods.items() if nm not in HANDLER_API and nm not in ("make_environ", "run_wsgi") and isinstance(m.node, ast.FunctionDef) and not trivial(m.node)}
     called = {st.value.func.attr for st in ast.walk(fi.node) if isinstance(st, ast.Expr) and isinstance(st.value, ast.Call) and isinstance(st.value.func, ast.Attribute) and is_self_attr(st.value.func) and st.value.func.attr in own}
+    functions: dict[str, ast.AST] = {}
+    if with_functions:
+        # `_helper(environ, url)` as a statement: a function of the module that is handed a local and returns nothing
+        functions = {nm: f.node for nm, f in fi.module.functions.items() if isinstance(f.node, ast.FunctionDef) and not trivial(f.node) and not any(isinstance(x, ast.Return) and x.value is not None for x in walk_no_nested(f.node))}
+        called |= {st.value.func.id for st in ast.walk(fi.node) if isinstance(st, ast.Expr) and isinstance(st.value, ast.Call) and isinstance(st.value.func, ast.Name) and st.value.func.id in functions and any(isinstance(a, ast.Name) for a in st.value.args)}
     if not called:
         return fi
-    node, inlined = H.inline_methods(fi.node, own, nested=True)
+    node, inlined = H.inline_methods(fi.node, own, nested=True, functions=functions, guard_returns=with_functions)
     if not inlined:
         return fi
-    ctx.saw(*[handler.methods[nm] for nm in sorted(inlined)])
+    ctx.saw(*[handler.methods[nm] if nm in handler.methods else fi.module.functions[nm] for nm in sorted(inlined)])
     return FuncInfo(fi.module, node, fi.qualname, fi.cls)
 
 
@@ -1185,7 +1202,12 @@ def _normalise_header_loop(me: FuncInfo) -> FuncInfo:
         in_comp = {id(x) for x in ast.walk(it)}
         clash = [x for x in ast.walk(new_fn) if isinstance(x, ast.Name) and x.id in comp_names and id(x) not in in_comp]
         body_names = {x.id for x in ast.walk(lp.target) if isinstance(x, ast.Name)}
-        if clash and not (comp_names == body_names and norm(gen.target) == norm(lp.target) == norm(it.elt)):
+        in_lp = {id(x) for x in ast.walk(lp)}
+        same_vars = comp_names == body_names and norm(gen.target) == norm(lp.target)
+        # the comprehension reuses the loop's own variables (`[(f(k), g(v)) for k, v in ... ]` / `for k, v in <that>`): binding
+        # them to the raw pair first and to the element right after is what the two loops did one after the other, as long
+        # as nothing outside the loop reads them
+        if clash and not (same_vars and (norm(gen.target) == norm(it.elt) or all(id(x) in in_lp for x in clash))):
             return me  # hoisting the comprehension's variables would capture other uses of these names
         pre: list[ast.stmt] = []
         if gen.ifs:
@@ -1211,9 +1233,65 @@ def _normalise_header_loop(me: FuncInfo) -> FuncInfo:
     return FuncInfo(me.module, new_fn, me.qualname, me.cls)
 
 
+def _normalise_keyerror_try(me: FuncInfo) -> FuncInfo:
+    """inside a loop over the request headers, `try: S` / `except KeyError: H` (/ `else: E`) where the single statement S
+    reads `d[k]` exactly once (d a local name, k a name or a constant) and does nothing else that can raise KeyError - no
+    other subscript, no call other than str methods / f-string formatting - is `if k in d: S; E` / `else: H`: the
+    exception edge is taken exactly when the key is missing.  The header loop rules evaluate the `if` form."""
+    def candidate(st: ast.AST) -> ast.Subscript | None:
+        if not isinstance(st, ast.Try) or st.finalbody or len(st.handlers) != 1 or len(st.body) != 1:
+            return None
+        h = st.handlers[0]
+        if h.name is not None or h.type is None or dotted(h.type) not in ("KeyError", "LookupError"):
+            return None
+        s0 = st.body[0]
+        if not isinstance(s0, (ast.Assign, ast.AnnAssign, ast.AugAssign)):
+            return None
+        subs = [x for x in ast.walk(s0) if isinstance(x, ast.Subscript)]
+        loads = [x for x in subs if isinstance(x.ctx, ast.Load)]
+        if len(subs) != 1 or len(loads) != 1 or not isinstance(loads[0].value, ast.Name) or not isinstance(loads[0].slice, (ast.Name, ast.Constant)):
+            return None
+        if any(isinstance(x, (ast.Call, ast.Await, ast.Yield, ast.YieldFrom, ast.NamedExpr, ast.Lambda)) for x in ast.walk(s0)):
+            return None
+        if any(isinstance(x, (ast.Return, ast.Raise)) for b in (st.orelse,) for y in b for x in ast.walk(y)):
+            return None
+        return loads[0]
+
+    def in_header_loop(fn: ast.AST) -> list[ast.Try]:
+        out = []
+        for lp in walk_no_nested(fn):
+            if isinstance(lp, ast.For) and any(is_self_attr(x, "headers") for x in ast.walk(lp.iter)):
+                out += [x for x in ast.walk(lp) if candidate(x) is not None]
+        return out
+
+    if not in_header_loop(me.node):
+        return me
+    new_fn = H.clone(me.node)
+    targets = {id(x) for x in in_header_loop(new_fn)}
+
+    class T(ast.NodeTransformer):
+        def visit_Try(self, st: ast.Try) -> ast.AST:  # noqa: N802
+            self.generic_visit(st)
+            if id(st) not in targets:
+                return st
+            sub = candidate(st)
+            assert sub is not None
+            test = ast.Compare(left=H.clone(sub.slice), ops=[ast.In()], comparators=[ast.Name(id=sub.value.id, ctx=ast.Load())])  # type: ignore[attr-defined]
+            new = ast.If(test=test, body=list(st.body) + list(st.orelse), orelse=list(st.handlers[0].body))
+            return ast.fix_missing_locations(ast.copy_location(new, st))
+
+    new_fn = T().visit(new_fn)
+    ast.fix_missing_locations(new_fn)
+    for n in ast.walk(new_fn):
+        for ch in ast.iter_child_nodes(n):
+            ch._parent = n  # type: ignore[attr-defined]
+    return FuncInfo(me.module, new_fn, me.qualname, me.cls)
+
+
 def _environ_rules(ctx: Ctx, me: FuncInfo) -> ClassInfo:
     repo = ctx.repo
     me = _normalise_header_loop(me)
+    me = _normalise_keyerror_try(me)
     cfg = cfg_of(me)
     rd = ReachingDefs(cfg, me.params)
     rets = astq.returns_of(me.node)
@@ -1221,13 +1299,33 @@ def _environ_rules(ctx: Ctx, me: FuncInfo) -> ClassInfo:
         raise AnalysisError("make_environ: expected `return <environ name>`")
     env = rets[0].value.id  # type: ignore[union-attr]
     # the literal that lists the fixed entries (a dict display with constant keys; `{**a, **b}` is a merge, not the literal)
-    dicts = [(s, v) for s, v in astq.assigns_to(me.node, env) if isinstance(v, ast.Dict) and any(k is not None for k in v.keys)]
+    dicts = [(s, v) for s, v in astq.assigns_to(me.node, env) if isinstance(v, ast.Dict) and any(k is not None for k in v.keys) and not any(k is None and isinstance(x, ast.Name) and x.id == env for k, x in zip(v.keys, v.values))]
     if len(dicts) != 1:
         raise AnalysisError("make_environ: expected one dict literal bound to the environ")
     dstmt, dlit = dicts[0]
     dnode = cfg.node_of(dstmt)
     assert dnode is not None and isinstance(dlit, ast.Dict)
     entries = {_const_str(k): v for k, v in zip(dlit.keys, dlit.values) if k is not None and _const_str(k) is not None}
+    entry_at: dict[str | None, Node] = {k: dnode for k in entries}
+    # the literal continued: `environ |= {...}` / `environ.update({...})` / `environ["K"] = v` as unconditional statements of
+    # the function body between the literal and the first loop add fixed entries just as the literal does
+    body_ = list(me.node.body)  # type: ignore[attr-defined]
+    if any(st is dstmt for st in body_):
+        for st in body_[[i for i, x in enumerate(body_) if x is dstmt][0] + 1:]:
+            if isinstance(st, (ast.For, ast.While, ast.AsyncFor)):
+                break
+            more: list[tuple[ast.AST | None, ast.AST]] = []
+            if isinstance(st, ast.AugAssign) and isinstance(st.op, ast.BitOr) and isinstance(st.target, ast.Name) and st.target.id == env and isinstance(st.value, ast.Dict):
+                more = list(zip(st.value.keys, st.value.values))
+            elif isinstance(st, ast.Expr) and isinstance(st.value, ast.Call) and isinstance(st.value.func, ast.Attribute) and st.value.func.attr == "update" and isinstance(st.value.func.value, ast.Name) and st.value.func.value.id == env and len(st.value.args) == 1 and not st.value.keywords and isinstance(st.value.args[0], ast.Dict):
+                more = list(zip(st.value.args[0].keys, st.value.args[0].values))
+            elif isinstance(st, ast.Assign) and len(st.targets) == 1 and isinstance(st.targets[0], ast.Subscript) and isinstance(st.targets[0].value, ast.Name) and st.targets[0].value.id == env:
+                more = [(st.targets[0].slice, st.value)]
+            sn_ = cfg.node_of(st)
+            for k, v in more:
+                if k is not None and _const_str(k) is not None and sn_ is not None:
+                    entries[_const_str(k)] = v
+                    entry_at[_const_str(k)] = sn_
 
     def sub_store(st: ast.AST) -> list[tuple[str, ast.AST, ast.AST]]:
         """`<name>[<key>] = <value>` (also pairwise in a tuple assignment) and `<name>.update({<key>: <value>, ...})`
@@ -1315,7 +1413,7 @@ def _environ_rules(ctx: Ctx, me: FuncInfo) -> ClassInfo:
     def entry(key: str) -> list[tuple[ast.AST, Node]]:
         """the expressions stored under a key of the literal (a local holding the value is followed to its definitions)."""
         e = entries.get(key)
-        return resolve(e, dnode) if e is not None else []
+        return resolve(e, entry_at.get(key, dnode)) if e is not None else []
 
     def shown(vs: list[tuple[ast.AST, Node]]) -> str:
         return ", ".join(f"`{norm(v)}`" for v, _ in vs) or "None"
@@ -1508,9 +1606,14 @@ def _environ_rules(ctx: Ctx, me: FuncInfo) -> ClassInfo:
         env_keys = frozenset(k for k in ks if k is not None) if all(k is not None for k in ks) else None
     _header_loop_rules(ctx, me, cfg, lp, hdict, [(s, k, v) for s, b, k, v in sub_stores if b == hdict], untouched=env if hdict != env else None, untouched_keys=env_keys)
 
+    # ---- absolute-form request target: its authority is the host ---------------------
+    if not wrong_parser:  # otherwise the components are not those of urlsplit: reported above, nothing to evaluate here
+        _host_authority_rule(ctx, me, cfg, env, lp, role)
+
     # ---- terminated <=> wrapped ------------------------------------------
-    term = [(s, v) for s, k, v in stores if _const_str(k) == "wsgi.input_terminated"]
-    wraps = [(s, v) for s, k, v in stores if _const_str(k) == "wsgi.input"]
+    fixed_ = {id(n_.ast) for n_ in entry_at.values() if n_ is not dnode}  # stores that continue the literal: fixed entries, judged there
+    term = [(s, v) for s, k, v in stores if _const_str(k) == "wsgi.input_terminated" and id(s) not in fixed_]
+    wraps = [(s, v) for s, k, v in stores if _const_str(k) == "wsgi.input" and id(s) not in fixed_]
     dech: ClassInfo | None = None
     wrap_calls: dict[int, list[ast.AST]] = {}
     for s, v in wraps:
@@ -1677,6 +1780,504 @@ def _environ_rules(ctx: Ctx, me: FuncInfo) -> ClassInfo:
         hdr_done = all(cfg.node_of(lp).id not in cfg.reach(wn) for lp in hloops)  # type: ignore[union-attr]
         ctx.ob("R19.4", "the de-chunker wraps the connection's read file, after the headers were copied", arg_ok and hdr_done, f"{[norm(w) for w in wcalls]}; header loop not after the wrap: {hdr_done}", me, wraps[0][0], "wrap argument")
     return dech
+
+
+HOST_KEY = "HTTP_HOST"
+# (scheme, netloc) of the request target; absolute-form = both present
+HOST_URL_SAMPLES = [("http", "public.example:8080"), ("https", "tls.example"), ("", ""), ("", "seg.example"), ("http", "")]
+DICT_MUTATORS = {"update", "setdefault", "pop", "popitem", "clear", "__setitem__", "__delitem__"}
+
+
+def _host_authority_rule(ctx: Ctx, me: FuncInfo, cfg: CFG, env: str, lp: ast.For, role: t.Callable[[ast.AST, Node], str | None]) -> None:
+    """R19.6.  The function is followed statement by statement from the entry to every `return`, once per sample request
+    target (scheme / netloc empty and non-empty; the other components fixed), with the locals that can be evaluated
+    (H.ev: constants, the components of urlsplit(self.path), boolean / conditional / f-string / comparison expressions,
+    side-effect-free predicate helpers) and, for every local dict, what it holds under HTTP_HOST:
+    absent / a value that was evaluated / `client` (whatever the header loop stored: the client's Host header, joined, or
+    nothing) / `opaque` (written by something that is not followed).  A condition that can be evaluated takes its edge, any
+    other both.  Absolute-form samples must return the netloc sample under HTTP_HOST on every path; the other samples
+    must not return a value evaluated from the URL.  `client` / absent on an absolute-form path is a violation
+    (setdefault after the header loop, `if "HTTP_HOST" not in environ`, a store before the loop); `opaque`, or a verdict
+    that rests on a URL condition that could not be evaluated, is an analysis error."""
+    UNK, UNK_URL = object(), object()
+    CLIENT_HOST = "<the client's Host header>"
+    ABSENT, CLIENT, OPAQUE = ("absent", None, ""), "client", "opaque"
+    in_loop = {id(x) for x in ast.walk(lp)}
+    handler = me.cls
+    helpers: dict[str, ast.AST] = {nm: f.node for nm, f in me.module.functions.items()}
+    if handler is not None:
+        helpers.update({f"self.{nm}": m.node for nm, m in handler.methods.items()})
+    static_helpers: dict[str, ast.AST] = {}
+    if handler is not None:
+        static_helpers = {nm: m.node for nm, m in handler.methods.items() if any(d.endswith("staticmethod") for d in m.decorators)}
+        for nm in static_helpers:
+            helpers.pop(f"self.{nm}", None)
+    fn_locals = _local_names(me.node)
+    # nested functions of make_environ: a call of one that mentions a local dict may change it through the closure
+    closures = {f.name: {x.id for x in ast.walk(f) if isinstance(x, ast.Name)} for f in ast.walk(me.node) if isinstance(f, (ast.FunctionDef, ast.AsyncFunctionDef)) and f is not me.node}
+    for st_ in ast.walk(me.node):
+        if isinstance(st_, ast.Assign) and isinstance(st_.value, ast.Lambda):
+            for tg_ in st_.targets:
+                if isinstance(tg_, ast.Name):
+                    closures[tg_.id] = {x.id for x in ast.walk(st_.value) if isinstance(x, ast.Name)}
+
+    def module_const(name: str) -> tuple[bool, t.Any]:
+        if name in fn_locals:
+            return False, None
+        vs = me.module.assigns.get(name) or []
+        if len(vs) == 1 and isinstance(vs[0], ast.Constant):
+            return True, vs[0].value
+        return False, None
+
+    class State:
+        __slots__ = ("vals", "hs", "fuzzy")
+
+        def __init__(self, vals: dict[str, t.Any], hs: dict[str, tuple], fuzzy: str):
+            self.vals, self.hs, self.fuzzy = vals, hs, fuzzy
+
+        def key(self) -> tuple:
+            return (tuple(sorted(self.vals.items(), key=lambda kv: kv[0])), tuple(sorted(self.hs.items())), self.fuzzy)
+
+        def copy(self) -> "State":
+            return State(dict(self.vals), dict(self.hs), self.fuzzy)
+
+    def run_sample(sch: str, net: str) -> list[tuple[tuple, str]]:
+        comp = {"scheme": sch, "netloc": net, "path": "/a%20b/c", "query": "x=1%2B2", "fragment": "frag"}
+
+        def mk_bind(st: State, at: Node, client: str | None = None) -> H.Binder:
+            """client: how a read of an entry that holds `what the header loop left` is answered - None: not at all
+            (Unknown); "absent": the client sent no Host header; "present": it sent one (a marker string)."""
+            def client_read(h: tuple, dflt: t.Callable[[], t.Any] | None) -> tuple[bool, t.Any]:
+                if h[0] == CLIENT and client == "present":
+                    return True, CLIENT_HOST
+                if h[0] == CLIENT and client == "absent" and dflt is not None:
+                    return True, dflt()
+                return False, None
+
+            def bind(x: ast.AST) -> tuple[bool, t.Any]:
+                if isinstance(x, ast.Name):
+                    if x.id in st.vals:
+                        v = st.vals[x.id]
+                        if v is UNK or v is UNK_URL:
+                            raise H.Unknown(x.id)
+                        return True, v
+                    if x.id in st.hs:
+                        raise H.Unknown(x.id)
+                if isinstance(x, ast.NamedExpr):  # the binding itself is made by the node that holds it (see step)
+                    return True, H.ev(x.value, bind)
+                if isinstance(x, (ast.Name, ast.Attribute, ast.Subscript)):
+                    r_ = role(x, at)
+                    if r_ is not None:
+                        return True, comp[r_]
+                if isinstance(x, ast.Name):
+                    hit, v = module_const(x.id)
+                    if hit:
+                        return True, v
+                if isinstance(x, ast.Call):
+                    if isinstance(x.func, ast.Attribute) and x.func.attr == "get" and isinstance(x.func.value, ast.Name) and x.func.value.id in st.hs and 1 <= len(x.args) <= 2 and not x.keywords:
+                        if key_of(x.args[0], st, at) == HOST_KEY:
+                            h = st.hs[x.func.value.id]
+                            if h[0] == "val":
+                                return True, h[1]
+                            if h[0] == "absent":
+                                return True, (H.ev(x.args[1], bind) if len(x.args) == 2 else None)
+                            hit_, v_ = client_read(h, lambda: H.ev(x.args[1], bind) if len(x.args) == 2 else None)
+                            if hit_:
+                                return True, v_
+                        raise H.Unknown(norm(x))
+                    inl = _inline_predicate(x, helpers)
+                    if inl is None and isinstance(x.func, ast.Attribute) and (is_self_attr(x.func) or (handler is not None and isinstance(x.func.value, ast.Name) and x.func.value.id == handler.name)) and x.func.attr in static_helpers:
+                        # a @staticmethod of the handler: no `self` parameter to drop
+                        inl = _inline_predicate(ast.Call(func=ast.Name(id=f"<static>{x.func.attr}", ctx=ast.Load()), args=x.args, keywords=x.keywords), {f"<static>{x.func.attr}": static_helpers[x.func.attr]})
+                    if inl is not None:
+                        return True, H.ev(inl, bind)
+                    if dotted(x.func) in ("all", "any") and len(x.args) == 1 and not x.keywords and isinstance(x.args[0], (ast.Tuple, ast.List)):
+                        vs_ = [bool(H.ev(e, bind)) for e in x.args[0].elts]
+                        return True, (all(vs_) if dotted(x.func) == "all" else any(vs_))
+                if isinstance(x, ast.Subscript) and isinstance(x.value, ast.Name) and x.value.id in st.hs:
+                    if key_of(x.slice, st, at) == HOST_KEY:
+                        if st.hs[x.value.id][0] == "val":
+                            return True, st.hs[x.value.id][1]
+                        hit_, v_ = client_read(st.hs[x.value.id], None)
+                        if hit_:
+                            return True, v_
+                    raise H.Unknown(norm(x))
+                if isinstance(x, ast.Compare) and len(x.ops) == 1 and isinstance(x.ops[0], (ast.In, ast.NotIn)):
+                    c0 = x.comparators[0]
+                    if isinstance(c0, ast.Call) and isinstance(c0.func, ast.Attribute) and c0.func.attr == "keys" and not c0.args:
+                        c0 = c0.func.value
+                    if isinstance(c0, ast.Name) and c0.id in st.hs:
+                        if key_of(x.left, st, at) == HOST_KEY:
+                            h = st.hs[c0.id]
+                            if h[0] == "val":
+                                return True, isinstance(x.ops[0], ast.In)
+                            if h[0] == "absent":
+                                return True, isinstance(x.ops[0], ast.NotIn)
+                            if h[0] == CLIENT and client is not None:
+                                return True, isinstance(x.ops[0], ast.In) == (client == "present")
+                        raise H.Unknown(norm(x))
+                return False, None
+
+            return bind
+
+        def key_of(k: ast.AST, st: State, at: Node) -> t.Any:
+            """the constant a key expression evaluates to, or UNK."""
+            try:
+                return H.ev(k, mk_bind(st, at))
+            except H.Unknown:
+                return UNK
+
+        def url_derived(a: ast.AST, st: State, at: Node) -> bool:
+            for x in ast.walk(a):
+                if is_self_attr(x, "path"):
+                    return True
+                if isinstance(x, ast.Name) and x.id in st.vals and st.vals[x.id] is not UNK:
+                    return True
+                if isinstance(x, (ast.Name, ast.Attribute, ast.Subscript)) and role(x, at) is not None:
+                    return True
+            return False
+
+        def from_headers(a: ast.AST, site: ast.AST) -> bool:
+            return id(site) in in_loop or any(is_self_attr(x, "headers") for x in ast.walk(a))
+
+        def where(at: Node) -> str:
+            return f"L{at.lineno} `{norm(at.ast)[:60]}`" if at.ast is not None else "?"
+
+        def merge(a: tuple, b: tuple, at: Node) -> tuple:
+            """dict a updated with dict b (b wins)."""
+            if b[0] == "absent":
+                return a
+            if b[0] in ("val", OPAQUE):
+                return b
+            return (CLIENT, None, b[2])  # b may hold the client's header: it wins over whatever a holds
+
+        def stored(st: State, v: ast.AST | None, at: Node, site: ast.AST) -> tuple:
+            if v is None:
+                return (OPAQUE, None, where(at))
+            try:
+                val = H.ev(v, mk_bind(st, at))
+                return ("val", val, where(at))
+            except H.Unknown:
+                pass
+            except Exception:
+                return (OPAQUE, None, where(at))
+            if from_headers(v, site):
+                return (CLIENT, None, where(at))
+            # the value may read the entry the header loop left (`environ.get("HTTP_HOST") or netloc`): evaluated for a
+            # client that sent a Host header and for one that sent none; a value that depends on it is the client's
+            try:
+                got = [H.ev(v, mk_bind(st, at, client=c_)) for c_ in ("present", "absent")]
+            except Exception:
+                return (OPAQUE, None, where(at))
+            if got[0] == got[1]:
+                return ("val", got[0], where(at))
+            return (CLIENT, None, where(at))
+
+        def put(st: State, d: str, k: ast.AST, v: ast.AST | None, at: Node, site: ast.AST) -> None:
+            kk = key_of(k, st, at)
+            if kk == HOST_KEY:
+                st.hs[d] = stored(st, v, at, site)
+            elif kk is UNK or not isinstance(kk, str):
+                st.hs[d] = ((CLIENT if from_headers(k, site) else OPAQUE), None, where(at))
+
+        def dstate(e: ast.AST | None, st: State, at: Node) -> tuple | None:
+            """what a dict-valued expression holds under HTTP_HOST; None when it is not recognised as a dict."""
+            if e is None:
+                return None
+            if isinstance(e, ast.Name):
+                return st.hs.get(e.id)
+            if isinstance(e, ast.Dict):
+                cur: tuple = ABSENT
+                tmp = State(st.vals, {**st.hs, "<lit>": ABSENT}, st.fuzzy)
+                for k, v in zip(e.keys, e.values):
+                    if k is None:
+                        d_ = dstate(v, st, at)
+                        tmp.hs["<lit>"] = merge(tmp.hs["<lit>"], d_ if d_ is not None else ((CLIENT if from_headers(v, e) else OPAQUE), None, where(at)), at)
+                    else:
+                        put(tmp, "<lit>", k, v, at, e)
+                cur = tmp.hs["<lit>"]
+                return cur
+            if isinstance(e, ast.DictComp):
+                return ((CLIENT if from_headers(e, e) else OPAQUE), None, where(at))
+            if isinstance(e, ast.BinOp) and isinstance(e.op, ast.BitOr):
+                a, b = dstate(e.left, st, at), dstate(e.right, st, at)
+                if a is not None and b is not None:
+                    return merge(a, b, at)
+                return None
+            if isinstance(e, ast.Call):
+                if isinstance(e.func, ast.Attribute) and e.func.attr == "copy" and not e.args and not e.keywords:
+                    return dstate(e.func.value, st, at)
+                if dotted(e.func) == "dict" and len(e.args) <= 1:
+                    cur = ABSENT
+                    if e.args:
+                        a = dstate(e.args[0], st, at)
+                        if a is None:
+                            a = ((CLIENT if from_headers(e.args[0], e) else OPAQUE), None, where(at))
+                        cur = a
+                    for kw in e.keywords:
+                        if kw.arg is None:
+                            b = dstate(kw.value, st, at)
+                            cur = merge(cur, b if b is not None else (OPAQUE, None, where(at)), at)
+                        elif kw.arg == HOST_KEY:
+                            cur = stored(st, kw.value, at, e)
+                    return cur
+            return None
+
+        def method_effect(c: ast.Call, st: State, at: Node) -> None:
+            d = c.func.value.id  # type: ignore[attr-defined]
+            m = c.func.attr  # type: ignore[attr-defined]
+            if m in READONLY_DICT_METHODS:
+                return
+            if m == "update":
+                for a in c.args:
+                    b = dstate(a, st, at)
+                    st.hs[d] = merge(st.hs[d], b if b is not None else ((CLIENT if from_headers(a, c) else OPAQUE), None, where(at)), at)
+                for kw in c.keywords:
+                    if kw.arg is None:
+                        b = dstate(kw.value, st, at)
+                        st.hs[d] = merge(st.hs[d], b if b is not None else (OPAQUE, None, where(at)), at)
+                    elif kw.arg == HOST_KEY:
+                        st.hs[d] = stored(st, kw.value, at, c)
+            elif m == "setdefault" and 1 <= len(c.args) <= 2 and not c.keywords:
+                kk = key_of(c.args[0], st, at)
+                h = st.hs[d]
+                if kk == HOST_KEY:
+                    if h[0] == "absent":
+                        st.hs[d] = stored(st, c.args[1] if len(c.args) == 2 else ast.Constant(value=None), at, c)
+                    # present: no effect; `client` (present or not): the client's value stays when there is one
+                elif kk is UNK or not isinstance(kk, str):
+                    st.hs[d] = ((CLIENT if from_headers(c.args[0], c) else OPAQUE), None, where(at)) if h[0] != CLIENT else h
+            elif m == "pop" and 1 <= len(c.args) <= 2 and not c.keywords:
+                kk = key_of(c.args[0], st, at)
+                if kk == HOST_KEY:
+                    st.hs[d] = ("absent", None, where(at))
+                elif kk is UNK or not isinstance(kk, str):
+                    st.hs[d] = (OPAQUE, None, where(at))
+            elif m == "clear" and not c.args:
+                st.hs[d] = ("absent", None, where(at))
+            else:
+                st.hs[d] = (OPAQUE, None, where(at))
+
+        def call_effects(a: ast.AST, st: State, at: Node) -> None:
+            """calls inside a statement / condition: a dict method changes the dict; a dict handed to anything else is
+            no longer followed."""
+            for c in ast.walk(a):
+                if not isinstance(c, ast.Call):
+                    continue
+                if isinstance(c.func, ast.Attribute) and isinstance(c.func.value, ast.Name) and c.func.value.id in st.hs:
+                    method_effect(c, st, at)
+                    continue
+                if dotted(c.func) in ("dict", "len", "bool", "sorted", "list", "tuple", "set", "frozenset", "isinstance", "id", "repr", "str"):
+                    continue
+                if isinstance(c.func, ast.Name) and c.func.id in closures:
+                    for d_ in closures[c.func.id] & set(st.hs):
+                        st.hs[d_] = (OPAQUE, None, where(at))
+                for x in list(c.args) + [kw.value for kw in c.keywords if kw.arg is not None]:
+                    if isinstance(x, ast.Name) and x.id in st.hs:
+                        st.hs[x.id] = (OPAQUE, None, where(at))
+
+        def assign_name(st: State, name: str, v: ast.AST | None, at: Node) -> None:
+            d_ = dstate(v, st, at) if v is not None and not isinstance(v, ast.Name) else None
+            if isinstance(v, ast.Name) and v.id in st.hs:  # a second name for the same dict: not followed
+                st.hs[v.id] = (OPAQUE, None, where(at))
+                d_ = st.hs[v.id]
+            if d_ is not None:
+                st.hs[name] = d_
+                st.vals.pop(name, None)
+                return
+            if name in st.hs:
+                st.hs[name] = (OPAQUE, None, where(at))
+                return
+            if v is None:
+                st.vals[name] = UNK
+                return
+            try:
+                st.vals[name] = H.ev(v, mk_bind(st, at))
+                hash(st.vals[name])
+            except H.Unknown:
+                st.vals[name] = UNK_URL if url_derived(v, st, at) else UNK
+            except Exception:
+                st.vals[name] = UNK
+
+        def kill_names(tg: ast.AST, st: State, at: Node) -> None:
+            """names bound by unpacking / a loop / a with: their value is not followed (names unpacked from the split
+            result are recognised by role())."""
+            for x in ast.walk(tg):
+                if isinstance(x, ast.Name) and isinstance(x.ctx, ast.Store):
+                    if x.id in st.hs:
+                        st.hs[x.id] = (OPAQUE, None, where(at))
+                    st.vals.pop(x.id, None)
+
+        def target_store(st: State, tg: ast.AST, v: ast.AST | None, at: Node, site: ast.AST) -> None:
+            if isinstance(tg, ast.Name):
+                assign_name(st, tg.id, v, at)
+            elif isinstance(tg, ast.Subscript) and isinstance(tg.value, ast.Name) and tg.value.id in st.hs:
+                put(st, tg.value.id, tg.slice, v, at, site)
+            elif isinstance(tg, (ast.Tuple, ast.List)):
+                if isinstance(v, (ast.Tuple, ast.List)) and len(v.elts) == len(tg.elts) and not any(isinstance(x, ast.Starred) for x in list(v.elts) + list(tg.elts)):
+                    pre = st.copy()  # the right-hand sides are evaluated first
+                    for e_, v_ in zip(tg.elts, v.elts):
+                        if isinstance(e_, ast.Name):
+                            tmp = pre.copy()
+                            assign_name(tmp, e_.id, v_, at)
+                            if e_.id in tmp.hs:
+                                st.hs[e_.id] = tmp.hs[e_.id]
+                                st.vals.pop(e_.id, None)
+                            else:
+                                st.vals[e_.id] = tmp.vals[e_.id]
+                        else:
+                            target_store(st, e_, v_, at, site)
+                else:
+                    for e_ in tg.elts:
+                        if isinstance(e_, ast.Subscript) and isinstance(e_.value, ast.Name) and e_.value.id in st.hs:
+                            put(st, e_.value.id, e_.slice, None, at, site)
+                    kill_names(tg, st, at)
+
+        def step(n: Node, st: State) -> list[tuple[Node, State]]:
+            """the states after node n, per successor."""
+            a = n.ast
+            out: list[tuple[Node, State]] = []
+            if n.kind == "test" and a is not None:
+                st = st.copy()
+                decided: bool | None = None
+                try:
+                    decided = bool(H.ev(a, mk_bind(st, n)))
+                except H.Unknown:
+                    if url_derived(a, st, n) and not st.fuzzy:
+                        st.fuzzy = f"L{n.lineno} `{norm(a)[:60]}`"
+                except Exception:
+                    pass
+                call_effects(a, st, n)
+                for x in ast.walk(a):
+                    if isinstance(x, ast.NamedExpr) and isinstance(x.target, ast.Name):
+                        assign_name(st, x.target.id, x.value, n)
+                for s, l in n.succs:
+                    if decided is not None and l in ("T", "F") and (l == "T") != decided:
+                        continue
+                    out.append((s, st))
+                return out
+            st = st.copy()
+            if n.kind == "loop" and isinstance(a, (ast.For, ast.AsyncFor)):
+                call_effects(a.iter, st, n)
+                st_t = st.copy()
+                kill_names(a.target, st_t, n)
+                for x in ast.walk(a.target):
+                    if isinstance(x, ast.Name):
+                        st_t.vals[x.id] = UNK
+                return [(s, st_t if l == "T" else st) for s, l in n.succs]
+            if n.kind == "with" and isinstance(a, (ast.With, ast.AsyncWith)):
+                for it in a.items:
+                    call_effects(it.context_expr, st, n)
+                    if it.optional_vars is not None:
+                        kill_names(it.optional_vars, st, n)
+                        for x in ast.walk(it.optional_vars):
+                            if isinstance(x, ast.Name):
+                                st.vals[x.id] = UNK
+            elif n.kind == "handler" and isinstance(a, ast.ExceptHandler):
+                if a.name:
+                    st.vals[a.name] = UNK
+            elif n.kind == "stmt" and a is not None:
+                if isinstance(a, (ast.FunctionDef, ast.AsyncFunctionDef, ast.ClassDef)):
+                    pass
+                elif isinstance(a, (ast.Assign, ast.AnnAssign)):
+                    if a.value is not None:
+                        if dstate(a.value, st, n) is None or not isinstance(a.value, ast.Call):
+                            call_effects(a.value, st, n)
+                        for tg in a.targets if isinstance(a, ast.Assign) else [a.target]:
+                            target_store(st, tg, a.value, n, a)
+                elif isinstance(a, ast.AugAssign):
+                    call_effects(a.value, st, n)
+                    if isinstance(a.target, ast.Name) and a.target.id in st.hs:
+                        if isinstance(a.op, ast.BitOr):
+                            b = dstate(a.value, st, n)
+                            st.hs[a.target.id] = merge(st.hs[a.target.id], b if b is not None else ((CLIENT if from_headers(a.value, a) else OPAQUE), None, where(n)), n)
+                        else:
+                            st.hs[a.target.id] = (OPAQUE, None, where(n))
+                    elif isinstance(a.target, ast.Name):
+                        assign_name(st, a.target.id, ast.BinOp(left=ast.Name(id=a.target.id, ctx=ast.Load()), op=a.op, right=a.value), n)
+                    elif isinstance(a.target, ast.Subscript) and isinstance(a.target.value, ast.Name) and a.target.value.id in st.hs:
+                        put(st, a.target.value.id, a.target.slice, None, n, a)
+                elif isinstance(a, ast.Delete):
+                    for tg in a.targets:
+                        if isinstance(tg, ast.Subscript) and isinstance(tg.value, ast.Name) and tg.value.id in st.hs:
+                            kk = key_of(tg.slice, st, n)
+                            if kk == HOST_KEY:
+                                st.hs[tg.value.id] = ("absent", None, where(n))
+                            elif kk is UNK or not isinstance(kk, str):
+                                st.hs[tg.value.id] = (OPAQUE, None, where(n))
+                        else:
+                            kill_names(tg, st, n)
+                else:
+                    call_effects(a, st, n)
+            return [(s, st) for s, l in n.succs]
+
+        finals: list[tuple[tuple, str]] = []
+        seen: set[tuple] = set()
+        work: list[tuple[Node, State]] = [(cfg.entry, State({}, {}, ""))]
+        while work:
+            n, st = work.pop()
+            if n is cfg.exit:
+                finals.append((st.hs.get(env, (OPAQUE, None, "the returned dict is not followed")), st.fuzzy))
+                continue
+            if n is cfg.raise_exit:
+                continue
+            k = (n.id, st.key())
+            if k in seen:
+                continue
+            seen.add(k)
+            if len(seen) > 60000:
+                raise AnalysisError("make_environ: too many states while following HTTP_HOST")
+            work.extend(step(n, st))
+        return finals
+
+    def show(h: tuple) -> str:
+        if h[0] == "val":
+            return f"{h[1]!r} (stored at {h[2]})"
+        if h[0] == "absent":
+            return "nothing" + (f" (removed at {h[2]})" if h[2] else " (no store)")
+        if h[0] == CLIENT:
+            return f"what the header loop left - the client's Host header, if any (last write that can change it: {h[2]})"
+        return f"not followed ({h[2]})"
+
+    n_finals = 0
+    bad_abs: list[str] = []
+    bad_other: list[str] = []
+    undecided: list[str] = []
+    n_net_abs = 0
+    for sch, net in HOST_URL_SAMPLES:
+        finals = run_sample(sch, net)
+        if not finals:
+            raise AnalysisError(f"make_environ: no path to the return for scheme {sch!r}, netloc {net!r}")
+        n_finals += len(finals)
+        absolute = bool(sch and net)
+        for h, fuzzy in sorted(set(finals), key=repr):
+            what = f"scheme {sch!r}, netloc {net!r}: HTTP_HOST on return is {show(h)}"
+            if absolute:
+                if h[0] == "val" and h[1] == net:
+                    n_net_abs += 1
+                elif h[0] == OPAQUE or fuzzy:
+                    undecided.append(what + (f"; rests on the condition {fuzzy}, which could not be evaluated" if fuzzy else ""))
+                else:
+                    bad_abs.append(what + ", expected the netloc")
+            else:
+                url_vals = {v for v in (sch, net, "/a%20b/c", "x=1%2B2", "frag") if v}
+                if h[0] == "val" and isinstance(h[1], str) and any(u in h[1] for u in url_vals):
+                    if fuzzy:
+                        undecided.append(what + f"; rests on the condition {fuzzy}, which could not be evaluated")
+                    else:
+                        bad_other.append(what + ", expected the client's Host header untouched")
+    host_in_loop = [x.value for x in ast.walk(lp) if isinstance(x, ast.Constant) and isinstance(x.value, str) and x.value.upper().replace("-", "_") in ("HOST", HOST_KEY)]
+    if bad_abs and host_in_loop:
+        # the header loop itself treats the Host header apart (skips it for an absolute-form target, say): which header
+        # name a loop store writes is not followed here
+        raise AnalysisError(f"make_environ: the header loop names the Host header ({host_in_loop[0]!r}); what it leaves under HTTP_HOST is not followed")
+    if undecided and not bad_abs and not bad_other:
+        raise AnalysisError("make_environ: what HTTP_HOST holds on return cannot be followed: " + "; ".join(undecided[:3]))
+    ctx.floor("R19.6", "sample request targets followed to the return of make_environ", n_finals, len(HOST_URL_SAMPLES))
+    ctx.ob("R19.6", "absolute-form request target: HTTP_HOST on return is the authority of the target on every path (the client's Host header does not win)", not bad_abs,
+           "; ".join(bad_abs) or f"netloc returned under HTTP_HOST on all {n_net_abs} distinct final states of the absolute-form samples", me, lp, "absolute-form authority is HTTP_HOST")
+    ctx.ob("R19.6", "any other request target: no component of the URL is stored over the client's Host header", not bad_other,
+           "; ".join(bad_other) or "no URL-derived value under HTTP_HOST on return for targets without scheme or without authority", me, lp, "origin-form keeps Host header")
 
 
 GENERIC_NAMES = ["Accept", "X-Forwarded-For", "accept-encoding", "Host", "Content-Type", "content-length", "CONTENT-TYPE", "Content-Length", "X_Under", "content_length", "Content_Type", "_", "x-a_b"]
@@ -2072,6 +2673,81 @@ def _concat_parts(e: ast.AST) -> list[t.Any]:
 # R19.3
 
 
+def _inline_stream_alias(ri: FuncInfo, under_attr: str) -> FuncInfo:
+    """`rfile = self.<stream>` (the only binding of that local; the attribute is not assigned in the function) and
+    `rfile.read(n)` / `rfile.readline()` afterwards is `self.<stream>.read(n)` / `.readline()`: the local is replaced by
+    the attribute and the binding dropped."""
+    if any(is_self_attr(x, under_attr) and isinstance(x.ctx, (ast.Store, ast.Del)) for x in ast.walk(ri.node)):
+        return ri
+
+    def aliases(fn: ast.AST) -> dict[str, list[ast.Assign]]:
+        out: dict[str, list[ast.Assign]] = {}
+        for st in walk_no_nested(fn):
+            if isinstance(st, ast.Assign) and len(st.targets) == 1 and isinstance(st.targets[0], ast.Name) and is_self_attr(st.value, under_attr):
+                out.setdefault(st.targets[0].id, []).append(st)
+        for nm in list(out):
+            stores = [x for x in ast.walk(fn) if isinstance(x, ast.Name) and x.id == nm and isinstance(x.ctx, (ast.Store, ast.Del))]
+            if len(stores) != len(out[nm]) or len(out[nm]) != 1 or nm in ri.params or out[nm][0] not in list(fn.body):  # type: ignore[attr-defined]
+                del out[nm]
+        return out
+
+    if not aliases(ri.node):
+        return ri
+    new_fn = H.clone(ri.node)
+    al = aliases(new_fn)
+    drop = {id(sts[0]) for sts in al.values()}
+    # the binding must come before every use: it is a statement of the function body and no use precedes it
+    for nm, sts in al.items():
+        idx = list(new_fn.body).index(sts[0])
+        if any(isinstance(x, ast.Name) and x.id == nm for st in new_fn.body[:idx] for x in ast.walk(st)):
+            return ri
+
+    class T(ast.NodeTransformer):
+        def visit_Name(self, n: ast.Name) -> ast.AST:  # noqa: N802
+            if n.id in al and isinstance(n.ctx, ast.Load):
+                return ast.copy_location(ast.Attribute(value=ast.Name(id="self", ctx=ast.Load()), attr=under_attr, ctx=ast.Load()), n)
+            return n
+
+    new_fn.body = [st for st in new_fn.body if id(st) not in drop]
+    new_fn = T().visit(new_fn)
+    ast.fix_missing_locations(new_fn)
+    for n in ast.walk(new_fn):
+        for ch in ast.iter_child_nodes(n):
+            ch._parent = n  # type: ignore[attr-defined]
+    return FuncInfo(ri.module, new_fn, ri.qualname, ri.cls)
+
+
+def _counter_before_early_returns(ri: FuncInfo) -> FuncInfo:
+    """`if G: return 0` guard clauses in front of `count = 0` (G a call-free test that does not mention the counter; the
+    same integer constant) are `count = 0` followed by `if G: return count`: binding a local to a constant first changes
+    nothing.  The count rules then see one returned expression."""
+    body = list(ri.node.body)  # type: ignore[attr-defined]
+    returned = {r.value.id for r in astq.returns_of(ri.node) if isinstance(r.value, ast.Name)}
+    start = 1 if body and isinstance(body[0], ast.Expr) and isinstance(body[0].value, ast.Constant) else 0
+    j = next((i for i, st in enumerate(body) if i >= start and isinstance(st, ast.Assign) and len(st.targets) == 1 and isinstance(st.targets[0], ast.Name) and st.targets[0].id in returned
+              and isinstance(st.value, ast.Constant) and isinstance(st.value.value, int) and not isinstance(st.value.value, bool)), None)
+    if j is None or j == start:
+        return ri
+    name, c = body[j].targets[0].id, body[j].value.value
+    for st in body[start:j]:
+        ok = (isinstance(st, ast.If) and not st.orelse and len(st.body) == 1 and isinstance(st.body[0], ast.Return) and isinstance(st.body[0].value, ast.Constant)
+              and type(st.body[0].value.value) is int and st.body[0].value.value == c
+              and not any(isinstance(x, (ast.Call, ast.NamedExpr, ast.Await)) or (isinstance(x, ast.Name) and x.id == name) for x in ast.walk(st.test)))
+        if not ok:
+            return ri
+    new_fn = H.clone(ri.node)
+    nb = list(new_fn.body)
+    guards_ = nb[start:j]
+    for g in guards_:
+        g.body[0].value = ast.copy_location(ast.Name(id=name, ctx=ast.Load()), g.body[0].value)
+    new_fn.body = nb[:start] + [nb[j]] + guards_ + nb[j + 1:]
+    ast.fix_missing_locations(new_fn)
+    for n in ast.walk(new_fn):
+        for ch in ast.iter_child_nodes(n):
+            ch._parent = n  # type: ignore[attr-defined]
+    return FuncInfo(ri.module, new_fn, ri.qualname, ri.cls)
+
+
 def _dechunker_rules(ctx: Ctx, cls: ClassInfo) -> None:
     ri = cls.methods.get("readinto")
     init = cls.methods.get("__init__")
@@ -2114,6 +2790,7 @@ def _dechunker_rules(ctx: Ctx, cls: ClassInfo) -> None:
     if inlined:
         ri = FuncInfo(ri.module, xnode, ri.qualname, ri.cls)
         ctx.saw(*[cls.methods[nm] for nm in sorted(inlined)])
+    ri = _inline_stream_alias(ri, under_attr)
     res = [tg.attr for s in walk_no_nested(ri.node) if isinstance(s, ast.Assign) and _self_call(s.value, lr.name) for tg in s.targets if is_self_attr(tg)]
     if not res:
         # the size read is kept in a local until it is stored (`size = self.read_chunk_len()` ... `self._len = size`)
@@ -2133,6 +2810,7 @@ def _dechunker_rules(ctx: Ctx, cls: ClassInfo) -> None:
     if len(ri.params) < 2:
         raise AnalysisError("readinto has no buffer parameter")
     buf = ri.params[1]
+    ri = _counter_before_early_returns(ri)
     rets = astq.returns_of(ri.node)
     # the count returned: one expression on every return - a local, or arithmetic over locals / len(<buffer>) / integers
     def countable(e: ast.AST | None) -> bool:
@@ -2269,33 +2947,70 @@ def _dechunker_rules(ctx: Ctx, cls: ClassInfo) -> None:
         ctx.ob("R19.3", "the chunk size read is stored as the residual length", False, f"`{stray_hdr[0].text()}`", ri, stray_hdr[0].ast, "header read not stored")
     h_ids, t_ids = {n.id for n in h_nodes}, {n.id for n in t_nodes}
     w_ids = {n.id for n in res_writers}
+    # the end flag as a latch (fourth state component).  It is followed when every read of the flag in readinto is a
+    # condition atom that can be evaluated for both values of the flag (`self._done`, `not self._done`, `self._done is
+    # True`, ...); any other use (copied to a local, handed on, mixed with other state in one atom) leaves the latch
+    # clause undecided: the component then stays False and nothing is claimed about it.
+    dtests: dict[int, str] = {}  # test node -> the edge taken when the flag is set
+    latch_followed = True
+    followed_loads: set[int] = set()
+    for n in cfg.nodes:
+        if n.kind != "test" or n.ast is None:
+            continue
+        loads = [x for x in ast.walk(n.ast) if is_self_attr(x, done_attr)]
+        if not loads:
+            continue
+        try:
+            dv = [bool(H.ev(n.ast, lambda x, v=v: (True, v) if is_self_attr(x, done_attr) else (False, None))) for v in (False, True)]
+        except H.Unknown:
+            latch_followed = False
+            continue
+        if dv[0] == dv[1]:
+            latch_followed = False
+            continue
+        dtests[n.id] = "T" if dv[1] else "F"
+        followed_loads |= {id(x) for x in loads}
+    if any(is_self_attr(x, done_attr) and isinstance(x.ctx, ast.Load) and id(x) not in followed_loads for x in ast.walk(ri.node)):  # type: ignore[attr-defined]
+        latch_followed = False
+    if not dtests:
+        # readinto never reads the flag.  Unless something it uses does (a method / property of the class that was not
+        # expanded into it), the flag has no influence: every statement is reachable with the flag set
+        flag_readers = {nm.split(".")[0] for nm, fi in cls.methods.items() if fi is not init and fi is not ri_src and any(is_self_attr(x, done_attr) and isinstance(x.ctx, ast.Load) for x in ast.walk(fi.node))}
+        if any(is_self_attr(x) and x.attr in flag_readers for x in ast.walk(ri.node)):  # type: ignore[attr-defined]
+            latch_followed = False
 
     def effect(n: Node, s: tuple) -> list[tuple]:
-        z, owed, fresh = s
+        z, owed, fresh, done_ = s
         a = n.ast
         if n.id in h_ids:
-            return [("Z", True, True), ("NZ", True, True)]
+            return [("Z", True, True, done_), ("NZ", True, True, done_)]
         if n.id in w_ids:  # any other write of the residual (plain, augmented, annotated, inside a tuple assignment)
             if isinstance(a, ast.Assign) and any(sym.is_res(tg) for tg in a.targets) and isinstance(a.value, ast.Constant) and a.value.value == 0:
-                return [("Z", owed, False)]
-            return [("Z", owed, False), ("NZ", owed, False)]
+                return [("Z", owed, False, done_)]
+            return [("Z", owed, False, done_), ("NZ", owed, False, done_)]
         if n.id in t_ids:
-            return [(z, False, fresh)]
+            return [(z, False, fresh, done_)]
+        if latch_followed and n.id in d_truth:
+            return [(z, owed, fresh, d_truth[n.id][z])]
         return [s]
 
     def edge_ok(n: Node, l: str | None, post: tuple) -> bool:
         if n.id in ztests and l in ("T", "F"):
             return (l == ztests[n.id]) == (post[0] == "Z")
+        if latch_followed and n.id in dtests and l in ("T", "F"):
+            return (l == dtests[n.id]) == post[3]
         return True
 
-    at, parent = H.typestate(cfg, [("Z", False, False), ("NZ", True, False)], effect, edge_ok)
+    # entry states: no residual and no terminator owed / inside a chunk; and, when the latch is followed, a call after the
+    # final chunk was seen (flag set, nothing left, terminator consumed)
+    at, parent = H.typestate(cfg, [("Z", False, False, False), ("NZ", True, False, False)] + ([("Z", False, False, True)] if latch_followed else []), effect, edge_ok)
 
     def check(nodes: list[Node], pred: t.Callable[..., bool], inst: str, cons: str, need: str, with_node: bool = False) -> None:
         for n in nodes:
             badstates = sorted(s for s in at[n.id] if not (pred(s, n) if with_node else pred(s)))
             if badstates and unrefined:
                 raise AnalysisError(f"readinto: `{n.text()[:60]}`: {cons} cannot be decided: the test `{unrefined[0].text()[:60]}` of the residual length is not followed")
-            fact = f"`{n.text()[:60]}`: reachable abstract states (residual zero?, terminator owed, size fresh from header) {sorted(at[n.id])}; required: {need}"
+            fact = f"`{n.text()[:60]}`: reachable abstract states (residual zero?, terminator owed, size fresh from header, end flag set) {sorted(at[n.id])}; required: {need}"
             if badstates:
                 fact += f"; counterexample path: {H.witness(cfg, parent, n, badstates[0])}"
             ctx.ob("R19.3", inst, not badstates and bool(at[n.id]) if n is not cfg.exit else not badstates, fact, ri, n.ast if n.ast is not None else ri.node, cons)
@@ -2304,6 +3019,10 @@ def _dechunker_rules(ctx: Ctx, cls: ClassInfo) -> None:
     check(t_nodes, lambda s: s[0] == "Z" and s[1], "the chunk terminator is read exactly when the residual length has reached zero (never while chunk bytes remain)", "terminator read state", "residual zero and a terminator owed")
     check([cfg.exit], lambda s: s[1] == (s[0] == "NZ"), "when readinto returns, a terminator is still owed exactly if chunk bytes remain", "exit state", "terminator owed <=> residual non-zero")
     check(d_nodes, lambda s, n: not d_truth[n.id][s[0]] or (s[0] == "Z" and s[2]), "the end flag is set only on a zero chunk size freshly read from a header", "end flag state", "residual zero, fresh from a header", with_node=True)
+    if latch_followed:
+        # the flag is a latch: once it is set - in this call or an earlier one - nothing but the terminator of the zero chunk is read
+        body_reads = [n for n in cfg.nodes if n.id not in t_ids and has_call(n, lambda x: sym.is_header_read(x) or (sym.under_call(x) and not is_term_read(x)))]
+        check(body_reads, lambda s: not s[3], "once the end flag is set no further chunk header or chunk data is read from the stream (in this call or in a later one)", "no read after the end flag", "end flag not set")
 
     # terminator validation (in readinto itself, or inside the helper that reads the terminator)
     for tn in t_nodes:
